@@ -297,21 +297,29 @@ def recursive_scenario(shape):
     def sc(ch, agg):
         counter = itertools.count()
 
-        def node(t, path, root, parent_alg, parent_ctx="main"):
+        def node(t, path, root, parent_alg, parent_ctx="main", parent_kms="main"):
             n = next(counter)
             cfg = {"id": n, "path": path, "children": []}
             cfg["mode"] = ch.choose(f"{path}.mode", ["sign", "omit+keys", "omit-nokeys"] + ([] if root else ["unnamed"]))
             cfg["fault"] = "none" if root else ch.choose(f"{path}.fault", FAULTS)
             cfg["input"] = ch.choose(f"{path}.input", ["unsigned", "signed"])
             if root:
-                cfg["scripts"] = ch.choose("scripts-from", ["configuration", "environment", "zephyr-base"])
+                cfg["scripts"] = ch.choose("scripts-from", ["configuration", "environment", "zephyr-base",
+                                                            "configuration+decoy-environment", "configuration+decoy-zephyr-base"])
                 cfg["ctx"] = "main"
+                cfg["kms"] = "main"
             elif cfg["mode"] != "unnamed":
                 # a node may name its own KMS context (another key directory in which the same key names hold other keys);
                 # without one it inherits its parent's
                 own = ch.choose(f"{path}.context", ["inherit", "own", "own-json"])
                 cfg["ctx_cfg"] = own
                 cfg["ctx"] = parent_ctx if own == "inherit" else "alt"
+                # ... and its own KMS script (here: one whose key store is the alternative directory whatever the
+                # context says); without one it inherits its parent's script
+                cfg["kms_cfg"] = ch.choose(f"{path}.kms-script", ["inherit", "own"])
+                cfg["kms"] = "alt" if cfg["kms_cfg"] == "own" else parent_kms
+                if cfg["kms"] == "alt":
+                    cfg["ctx"] = "alt"
             if cfg["mode"] != "unnamed":
                 cfg["alg_cfg"] = ch.choose(f"{path}.alg", ["inherit", "es-256", "eddsa"])
                 cfg["alg"] = parent_alg if cfg["alg_cfg"] == "inherit" else cfg["alg_cfg"]
@@ -324,7 +332,7 @@ def recursive_scenario(shape):
                 if cfg["mode"] == "unnamed" or cfg["fault"] != "none":
                     cfg["children"].append(plain(c, f"{path}/d{i}"))
                 else:
-                    cfg["children"].append(node(c, f"{path}/d{i}", False, cfg["alg"], cfg.get("ctx", parent_ctx)))
+                    cfg["children"].append(node(c, f"{path}/d{i}", False, cfg["alg"], cfg.get("ctx", parent_ctx), cfg.get("kms", parent_kms)))
             return cfg
 
         def plain(t, path):
@@ -378,17 +386,56 @@ def build_input(cfg, d):
     return b
 
 
-def config_json(cfg, root=True):
+ALT_KMS = '''"""a second KMS: the stock file-based one, with its own key store"""
+import importlib.util
+_spec = importlib.util.spec_from_file_location("svmc_stock_kms", %r)
+_m = importlib.util.module_from_spec(_spec)
+_spec.loader.exec_module(_m)
+
+
+class SuitKMS(_m.SuitKMS):
+    def init_kms(self, context):
+        super().init_kms(%r)
+
+
+def suit_kms_factory():
+    return SuitKMS()
+'''
+DECOY_KMS = '''from suit_generator.suit_kms_base import SuitKMSBase
+
+
+class SuitKMS(SuitKMSBase):
+    def init_kms(self, context):
+        raise RuntimeError("the KMS script named by the ENVIRONMENT was used although the configuration names one")
+
+    def encrypt(self, *a, **k):
+        raise RuntimeError("decoy")
+
+    def sign(self, *a, **k):
+        raise RuntimeError("decoy")
+
+
+def suit_kms_factory():
+    return SuitKMS()
+'''
+DECOY_SIGN = '''def suit_signer_factory():
+    raise RuntimeError("the sign script named by the ENVIRONMENT was used although the configuration names one")
+'''
+
+
+def config_json(cfg, root=True, d=None):
     c = {}
     s, k = scripts()
     if root:
         c["context"] = vkeys.key_dir()
-        if cfg.get("scripts", "configuration") == "configuration":
+        if cfg.get("scripts", "configuration").startswith("configuration"):
             c["sign-script"], c["kms-script"] = s, k
     elif cfg.get("ctx_cfg") == "own":
         c["context"] = vkeys.key_dir_alt()
     elif cfg.get("ctx_cfg") == "own-json":
         c["context"] = json.dumps({"keys_directory": vkeys.key_dir_alt()})
+    if cfg.get("kms_cfg") == "own":
+        c["kms-script"] = os.path.join(d, "alt_kms.py") if d else "<scratch>/alt_kms.py"
     if cfg["mode"] in ("omit+keys", "omit-nokeys"):
         c["omit-signing"] = True
     if cfg["mode"] != "omit-nokeys":
@@ -401,7 +448,7 @@ def config_json(cfg, root=True):
     deps = {}
     for i, ch_ in enumerate(cfg["children"]):
         if ch_["mode"] != "unnamed":
-            deps[f"#d{i}"] = config_json(ch_, False)
+            deps[f"#d{i}"] = config_json(ch_, False, d)
     if deps:
         c["dependencies"] = deps
     return c
@@ -449,10 +496,29 @@ def run_recursive(tree, ch, agg):
             raise RuntimeError(f"harness: cannot build input tree: {type(e).__name__}: {e}")
         i, o, cf = os.path.join(d, "in.suit"), os.path.join(d, "out.suit"), os.path.join(d, "cfg.json")
         open(i, "wb").write(b)
-        json.dump(config_json(tree), open(cf, "w"))
+        json.dump(config_json(tree, True, d), open(cf, "w"))
+        with open(os.path.join(d, "alt_kms.py"), "w") as fh:
+            fh.write(ALT_KMS % (scripts()[1], vkeys.key_dir_alt()))
         saved = {k: os.environ.get(k) for k in ("NCS_SUIT_SIGN_SCRIPT", "NCS_SUIT_KMS_SCRIPT", "ZEPHYR_BASE")}
         if tree.get("scripts") == "environment":
             os.environ["NCS_SUIT_SIGN_SCRIPT"], os.environ["NCS_SUIT_KMS_SCRIPT"] = scripts()
+        elif tree.get("scripts") in ("configuration+decoy-environment", "configuration+decoy-zephyr-base"):
+            # the configuration names the scripts; the environment ALSO names some (decoys that refuse to work):
+            # what the configuration says - on the node or inherited from an ancestor - wins
+            zb = os.path.join(d, "decoy", "zephyr")
+            nd = os.path.join(d, "decoy", "modules", "lib", "suit-generator", "ncs")
+            os.makedirs(zb)
+            os.makedirs(nd)
+            open(os.path.join(nd, "basic_kms.py"), "w").write(DECOY_KMS)
+            open(os.path.join(nd, "sign_script.py"), "w").write(DECOY_SIGN)
+            if tree["scripts"].endswith("environment"):
+                os.environ["NCS_SUIT_SIGN_SCRIPT"] = os.path.join(nd, "sign_script.py")
+                os.environ["NCS_SUIT_KMS_SCRIPT"] = os.path.join(nd, "basic_kms.py")
+                os.environ.pop("ZEPHYR_BASE", None)
+            else:
+                os.environ.pop("NCS_SUIT_SIGN_SCRIPT", None)
+                os.environ.pop("NCS_SUIT_KMS_SCRIPT", None)
+                os.environ["ZEPHYR_BASE"] = zb
         elif tree.get("scripts") == "zephyr-base":
             # an SDK tree: $ZEPHYR_BASE/../modules/lib/suit-generator/ncs/{sign_script,basic_kms}.py ; the variable is set now,
             # long after the tool's modules were imported
